@@ -302,8 +302,25 @@ def run(prog, rep):
                     sn = f.self_name or "self"
                     params = {a.arg for a in f.node.args.args + f.node.args.kwonlyargs} - {sn, "cls"}
                     rebound = {t.id for s_ in walk_no_nested(f.node) for t in ast.walk(s_) if isinstance(t, ast.Name) and isinstance(t.ctx, ast.Store)}
+                    # items reached by walking an argument or one of the block's own item lists are objects the caller handed in
+                    # (now or earlier): other blocks may hold the very same objects
+                    is_block = any(k.name == "Block" for k in prog.mro(c)[1:])
+                    walked = {}
+                    if is_block and f.kind in ("method", "setter") and f.name not in ("__eq__",):
+                        for lp in [y for y in walk_no_nested(f.node) if isinstance(y, (ast.For, ast.comprehension))]:
+                            src = lp.iter
+                            roots = [y for y in ast.walk(src) if (isinstance(y, ast.Name) and y.id in params and y.id not in rebound)
+                                     or (isinstance(y, ast.Attribute) and isinstance(y.value, ast.Name) and y.value.id == sn)]
+                            if roots and not any(isinstance(y, ast.Call) and norm(y.func) not in ("zip", "enumerate", "reversed", "list", "tuple", "iter", "sorted") for y in ast.walk(src)):
+                                for y in ast.walk(lp.target):
+                                    if isinstance(y, ast.Name):
+                                        walked[y.id] = norm(src)
                     for x in walk_no_nested(f.node):
                         tgs = x.targets if isinstance(x, ast.Assign) else [x.target] if isinstance(x, (ast.AugAssign, ast.AnnAssign)) and getattr(x, "value", None) is not None else []
+                        for t in tgs:
+                            if isinstance(t, ast.Attribute) and isinstance(t.value, ast.Name) and t.value.id in walked:
+                                bad = (f, x, f"`{norm(head(x))[:60]}` stores state on `{t.value.id}`, an item reached by walking `{walked[t.value.id]}` (items are the caller's objects and can be held by several blocks: "
+                                       "what this block writes on one, the others contain and encode);")
                         for t in tgs:
                             if isinstance(t, ast.Attribute) and isinstance(t.value, ast.Name):
                                 if c.name in singleton_classes and t.value.id == sn and f.name != "__init__":
